@@ -22,6 +22,7 @@ type Case struct {
 	G      *cfgm.G
 	Named  bool // list parameters declared with named slice types (assignable, not identical)
 	Layout int  // where _onBounds sits among the parser type's methods (pgo.Opts.BoundsLayout)
+	Nil    uint64 `json:",omitempty"` // rules whose actions return a nil `any` (pgo.Opts.NilMask)
 	Inputs [][]int
 	Lox    string `json:",omitempty"`
 	Detail string `json:",omitempty"`
@@ -51,6 +52,13 @@ func Gen(rt *rapid.T, run *ev.Run, nInputs int, nullableHeavy bool) *Case {
 		}
 		seen := map[string]bool{}
 		c := &Case{G: g, Named: rapid.Bool().Draw(rt, "named-slice-params"), Layout: rapid.IntRange(0, 2).Draw(rt, "onbounds-layout")}
+		if rapid.IntRange(0, 2).Draw(rt, "nil-results") == 0 {
+			// some rules (the start rule more often than not) are side-effect-only: `any`, nil
+			c.Nil = rapid.Uint64().Draw(rt, "nilmask") | uint64(rapid.IntRange(0, 1).Draw(rt, "nilstart"))
+			if len(pgo.NilRules(g, c.Nil)) > 0 {
+				run.Class("gen:rules-returning-nil-interface")
+			}
+		}
 		for k := 0; k < nInputs; k++ {
 			w := cfggen.Sentence(rt, p, rapid.IntRange(2, 8).Draw(rt, "b"))
 			if len(w) > 40 {
@@ -100,7 +108,7 @@ func Eval(run *ev.Run, cases []*Case, m Mode, count bool, prop string) ([]Verdic
 	mk := func(onb bool) ([]*pbatch.Case, []*pbatch.Out, error) {
 		pc := make([]*pbatch.Case, len(cases))
 		for i, c := range cases {
-			pc[i] = &pbatch.Case{G: c.G, Inputs: c.Inputs, OnBounds: onb, NamedSlices: c.Named, BoundsLayout: c.Layout}
+			pc[i] = &pbatch.Case{G: c.G, Inputs: c.Inputs, OnBounds: onb, NamedSlices: c.Named, BoundsLayout: c.Layout, NilMask: c.Nil}
 		}
 		outs, err := pbatch.Run(pc, true)
 		return pc, outs, err
@@ -149,7 +157,7 @@ func Eval(run *ev.Run, cases []*Case, m Mode, count bool, prop string) ([]Verdic
 			if err := p.ValidateTree(tree, w); err != nil {
 				return nil, fmt.Errorf("reference tree failed self-certification: %v", err)
 			}
-			ex := pgo.Expected(p, tree, w)
+			ex := pgo.ExpectedNil(p, tree, w, pgo.NilRules(c.G, c.Nil))
 			r := o.Results[k]
 			if count {
 				run.Eval(1)
@@ -258,10 +266,10 @@ func Shrink(run *ev.Run, c *Case, m Mode, prop string) *Case {
 	cands := func(c *Case) []*Case {
 		var out []*Case
 		for _, g := range cfggen.Reductions(c.G) {
-			out = append(out, &Case{G: g, Named: c.Named, Layout: c.Layout, Inputs: c.Inputs})
+			out = append(out, &Case{G: g, Named: c.Named, Layout: c.Layout, Nil: c.Nil, Inputs: c.Inputs})
 		}
 		for _, w := range cfggen.InputReductions(c.Inputs[0]) {
-			out = append(out, &Case{G: c.G, Named: c.Named, Layout: c.Layout, Inputs: [][]int{w}})
+			out = append(out, &Case{G: c.G, Named: c.Named, Layout: c.Layout, Nil: c.Nil, Inputs: [][]int{w}})
 		}
 		return out
 	}
@@ -366,7 +374,7 @@ func RunCheck(run *ev.Run, prop string, m Mode, nQuick, nThorough int, nullableH
 			if vs[i].Bad == nil {
 				continue
 			}
-			fc := &Case{G: c.G, Named: c.Named, Layout: c.Layout, Inputs: [][]int{vs[i].Bad}, Lox: c.Lox}
+			fc := &Case{G: c.G, Named: c.Named, Layout: c.Layout, Nil: c.Nil, Inputs: [][]int{vs[i].Bad}, Lox: c.Lox}
 			detail := vs[i].Detail
 			if len(vs[i].Bad) > 0 || true {
 				fc = Shrink(run, fc, m, prop)
